@@ -212,8 +212,8 @@ func p2pkeSwarmCase(r *rand.Rand, bad func(string, ...any)) int {
 		bad("C04 p2pkeswarm: Tell to identity C at B's address reported success")
 	}
 	for _, m := range append(append([]seenMsg{}, gotB...), gotC...) {
-		if m.payload == "for-c-only" {
-			bad("C04 p2pkeswarm: a payload addressed to identity C was handed to a node that does not hold C's key")
+		if strings.HasSuffix(m.payload, "for-c-only") {
+			bad("C01,C04 p2pkeswarm: a payload addressed to identity C was handed to a node that does not hold C's key")
 		}
 	}
 	if rejectB {
@@ -289,6 +289,31 @@ func quicSwarmCase(r *rand.Rand, bad func(string, ...any)) int {
 	wctx, wcf := context.WithTimeout(context.Background(), time.Second)
 	errWrong := a.Tell(wctx, wrong, p2p.IOVec{[]byte("for-c-only")})
 	wcf()
+	// the refusal is not a one-off: repeats of the same destination (whatever the first attempt left behind in the
+	// dialer's caches), an Ask and a key lookup are refused as well
+	go b.ServeAsk(context.Background(), func(_ context.Context, resp []byte, m p2p.Message[quicswarm.Addr[udpswarm.Addr]]) int {
+		mu.Lock()
+		gotB = append(gotB, seenMsg{m.Src, "ask:" + string(m.Payload), "-"})
+		mu.Unlock()
+		return 0
+	})
+	for k := 0; k < 2; k++ {
+		wctx, wcf := context.WithTimeout(context.Background(), time.Second)
+		if err := a.Tell(wctx, wrong, p2p.IOVec{[]byte("for-c-only")}); err == nil {
+			bad("C04 quicswarm: Tell number %d to identity C at B's address reported success (the first was refused: %v)", k+2, errWrong != nil)
+		}
+		wcf()
+	}
+	wctx, wcf = context.WithTimeout(context.Background(), time.Second)
+	if _, err := a.Ask(wctx, make([]byte, 16), wrong, p2p.IOVec{[]byte("for-c-only")}); err == nil {
+		bad("C04 quicswarm: Ask to identity C at B's address, after a refused Tell, was answered")
+	}
+	wcf()
+	wctx, wcf = context.WithTimeout(context.Background(), time.Second)
+	if pk, err := a.LookupPublicKey(wctx, wrong); err == nil && quicswarm.DefaultFingerprinter(pk) != addrC.ID {
+		bad("C04 quicswarm: LookupPublicKey for identity C at B's address, after a refused Tell, returned the key of %v", quicswarm.DefaultFingerprinter(pk))
+	}
+	wcf()
 	time.Sleep(100 * time.Millisecond)
 	mu.Lock()
 	defer mu.Unlock()
@@ -296,8 +321,8 @@ func quicSwarmCase(r *rand.Rand, bad func(string, ...any)) int {
 		bad("C04 quicswarm: Tell to identity C at B's address reported success")
 	}
 	for _, m := range gotB {
-		if m.payload == "for-c-only" {
-			bad("C04 quicswarm: a payload addressed to identity C was handed to node B")
+		if strings.HasSuffix(m.payload, "for-c-only") {
+			bad("C01,C04 quicswarm: a payload addressed to identity C was handed to node B")
 		}
 	}
 	if rejectB {
@@ -309,6 +334,9 @@ func quicSwarmCase(r *rand.Rand, bad func(string, ...any)) int {
 			return 1 // socket trouble: inconclusive
 		}
 		for _, m := range gotB {
+			if strings.HasPrefix(m.payload, "ask:") {
+				continue
+			}
 			src := m.src.(quicswarm.Addr[udpswarm.Addr])
 			if src.ID != idA {
 				bad("C04 quicswarm: message from A attributed to identity %v, A's identity is %v", src.ID, idA)
@@ -383,8 +411,8 @@ func sshHonestCase(r *rand.Rand, bad func(string, ...any)) int {
 	for k := 0; k < 2; k++ {
 		select {
 		case m := <-got:
-			if m.payload == "for-c-only" {
-				bad("C04 sshswarm: a payload addressed to identity C was handed to node B")
+			if strings.HasSuffix(m.payload, "for-c-only") {
+				bad("C01,C04 sshswarm: a payload addressed to identity C was handed to node B")
 				continue
 			}
 			if fp := m.src.(sshswarm.Addr).Fingerprint; fp != fpA {
